@@ -420,7 +420,12 @@ class StopOrderMonitor:
     def stop_given_up(self, w, sender, q, t):
         L = ledger(w)
         f = L.forced.get((sender, q))
-        return f is not None and f[0] == int(PS.STOPPED)
+        if f is not None and f[0] == int(PS.STOPPED):
+            return True
+        # the forced state is published right after the next requests of the same evaluation: the sender
+        # already displays it (STOPPED although the copy still runs)
+        pv = process_view(w.sups[sender]).get(q)
+        return pv is not None and pv['statename'] == 'STOPPED'
 
     def on_emit(self, w, rec):
         if rec['req'] != 'STOP_PROCESS':
